@@ -118,6 +118,10 @@ def gen(rng):
     spec['pulses'] = pulses
     spec['volts'] = [(rng.uniform(-2, 2), rng.uniform(-2, 2)) for _ in pulses]
     spec['scale'] = (rng.uniform(-3, 3), rng.uniform(-3, 3))
+    if rng.random() < 0.35:
+        # receiving-antenna levels and very strong drives: impedances do not depend on the level
+        mag = 10.0 ** rng.choice([-12, -9, -7, 6, 9])
+        spec['scale'] = (spec['scale'][0] * mag, spec['scale'][1] * mag)
     return spec
 
 
